@@ -20,13 +20,14 @@
 (* FileStructure.tla interprets that sequence as a PDF file, Content (below) *)
 (* as a content stream.                                                     *)
 (***************************************************************************)
-EXTENDS PdfObjects
+EXTENDS PdfObjects, TLC
 
 Frame(fk, off, num, gen) ==
     [fk |-> fk, items |-> <<>>, d |-> EmptyMap, key |-> <<>>, hk |-> FALSE, num |-> num, gen |-> gen, off |-> off]
 
-InitAcc(cm) ==
-    [m |-> "ws", t |-> <<>>, n |-> 0, p |-> 1, s |-> 0, st |-> <<Frame("top", 0, 0, 0)>>, pend |-> <<>>,
+InitAcc(cm, vb) ==
+    [vb |-> vb,      \* verbatim mode (classifier only): raw end-of-line markers in literal strings are kept as written
+     m |-> "ws", t |-> <<>>, n |-> 0, p |-> 1, s |-> 0, st |-> <<Frame("top", 0, 0, 0)>>, pend |-> <<>>,
      err |-> "", cm |-> cm, o |-> 0, oc |-> 0, hp |-> FALSE, hv |-> 0,
      xe |-> FALSE, rs |-> 0, re |-> 0, lr |-> <<>>]
 
@@ -145,13 +146,11 @@ ShiftKw(a) ==
     ELSE IF a.t = KwNull THEN Shift(a1, [t |-> "val", val |-> ONull, s |-> a.s])
     ELSE Shift(a1, [t |-> "kw", v |-> a.t, s |-> a.s])
 
-\* A comment at top level is recorded (header, %%EOF).  Pending integers are flushed first so the
-\* items stay in file order ("startxref 123 %%EOF"); hence a comment between "n g" and "obj" at top
-\* level is not accepted (no producer writes that; the Producer of this specification does not).
+\* A comment at top level is recorded (header, %%EOF).  It may arrive while integers are still
+\* pending ("startxref 123 %%EOF", "1 0 %c obj"); Read sorts the top-level items by position.
 EndComment(a) ==
     IF Len(a.st) = 1 /\ ~a.cm
-    THEN LET a1 == FlushPend([a EXCEPT !.m = "ws"]) IN
-         IF a1.err # "" THEN a1 ELSE TopItem(a1, [it |-> "cmt", v |-> a.t, s |-> a.s])
+    THEN TopItem([a EXCEPT !.m = "ws"], [it |-> "cmt", v |-> a.t, s |-> a.s])
     ELSE [a EXCEPT !.m = "ws"]
 
 \* dispatch of byte b when no token is in progress
@@ -174,7 +173,9 @@ LitByte(a, b) ==      \* byte b inside a literal string, mode "lit"
         IF a.n = 1 THEN Shift([a EXCEPT !.m = "ws"], [t |-> "val", val |-> OStr(a.t), s |-> a.s])
         ELSE [a EXCEPT !.t = Append(@, b), !.n = @ - 1]
     ELSE IF b = 92 THEN [a EXCEPT !.m = "esc"]
-    ELSE IF b = 13 THEN [a EXCEPT !.t = Append(@, 10), !.m = "litcr"]     \* EOL marker reads as LF (7.3.4.2)
+    ELSE IF b = 13 THEN
+        IF a.vb THEN [a EXCEPT !.t = Append(@, 13)]
+        ELSE [a EXCEPT !.t = Append(@, 10), !.m = "litcr"]                  \* EOL marker reads as LF (7.3.4.2)
     ELSE [a EXCEPT !.t = Append(@, b)]
 
 EscByte(a, b) ==
@@ -263,8 +264,8 @@ Step0(a, b) ==
 Step(a, b) == IF a.err # "" THEN a ELSE [Step0(a, b) EXCEPT !.p = a.p + 1]
 
 \* run the automaton over bytes (a final LF terminates any pending token or comment)
-Run(bytes, cm) ==
-    LET a  == FoldLeft(Step, InitAcc(cm), Append(bytes, 10))
+RunV(bytes, cm, vb) ==
+    LET a  == FoldLeft(Step, InitAcc(cm, vb), Append(bytes, 10))
         a1 == IF a.err # "" THEN a
               ELSE IF a.m # "ws" THEN Fail(a, "input ends inside a token")
               ELSE FlushPend(a)
@@ -279,17 +280,21 @@ Resolve(bytes, o) ==
     IF o.k = "stream" THEN [o EXCEPT !.w = SubSeq(bytes, o.w[1], o.w[2])] ELSE o
 
 \* result: [ok, err, errpos, items]
-Read(bytes, cm) ==
-    LET a == Run(bytes, cm) IN
+ReadV(bytes, cm, vb) ==
+    LET a == RunV(bytes, cm, vb) IN
     IF a.err # "" THEN [ok |-> FALSE, err |-> a.err, at |-> a.n, items |-> <<>>]
-    ELSE [ok |-> TRUE, err |-> "", at |-> 0,
-          items |-> [i \in 1..Len(a.st[1].items) |->
-                        LET it == a.st[1].items[i] IN
+    ELSE LET sorted == SortSeq(a.st[1].items, LAMBDA x, y : x.s < y.s) IN
+         [ok |-> TRUE, err |-> "", at |-> 0,
+          items |-> [i \in 1..Len(sorted) |->
+                        LET it == sorted[i] IN
                         IF it.it = "obj" THEN [it EXCEPT !.val = Resolve(bytes, it.val)] ELSE it]]
+
+Read(bytes, cm) == ReadV(bytes, cm, FALSE)
 
 \* a single direct object spelled in bytes
 ReadObject(bytes) ==
-    LET r == Read(bytes, FALSE) IN
-    IF r.ok /\ Len(r.items) = 1 /\ r.items[1].it = "val" THEN [ok |-> TRUE, val |-> r.items[1].val]
-    ELSE [ok |-> FALSE, val |-> ONull]
+    LET r == Read(bytes, FALSE)
+        its == SelectSeq(r.items, LAMBDA it : it.it # "cmt")          \* comments are white-space
+    IN IF r.ok /\ Len(its) = 1 /\ its[1].it = "val" THEN [ok |-> TRUE, val |-> its[1].val]
+       ELSE [ok |-> FALSE, val |-> ONull]
 =============================================================================
